@@ -33,6 +33,12 @@ RULE = ("cases: (network, kind, hash) for kind in P2PKH/P2SH/P2WPKH/P2WSH/P2TR x
         "keys additionally the two fixed secrets whose public point has an x / a y coordinate shorter than 32 bytes; every offered "
         "text is classed by the reference (address, own prefix with wrong payload length, key text, other prefix, standard segwit "
         "lower / upper case, own HRP not standard, other HRP, no checksum) and every class must be offered. "
+        "regrouping = (network with an HRP, version, program, fill): checksummed bech32 / bech32m texts whose 5-bit data part is the "
+        "program's 8-to-5 regrouping with every non-zero value of the 1..4 fill bits of the last symbol (all 15 values for "
+        "every 32-byte P2WSH / P2TR program offered: zeros, ff, last bit set / clear, random), or with one or two surplus symbols "
+        "(every value after a 20-byte program), in lower and upper case, with the version's own and the other checksum "
+        "constant, and on a few non-standard versions / lengths; each offered to parse.address, payable, parse(), "
+        "contract.for_address, p2pkh_segwit, p2sh_segwit and p2tr. "
         "Non-trivial = non-empty script or text; distinct by the case tuple.")
 ASSUMPTIONS = [
     "declared prefixes / HRP / tags are what the network's public encoders write (address.for_p2pkh / for_p2sh / for_p2pkh_wit on a "
@@ -66,11 +72,17 @@ ASSUMPTIONS = [
     "ku_output: hex lines are compared as bytes (letter case free); the lines hash160, address, <SYM>_address, address_segwit, p2sh_segwit, p2sh_segwit_script speak about the "
     "compressed encoding and the *_uncompressed lines about the uncompressed one (the output's own annotation); for BIP49 / BIP84 "
     "nodes 'address' is the node address; other lines, missing lines and an exception from ku_output are not judged here",
+    "regrouping texts: that the data part is no regrouping of any byte string (fill bits not all zero, or more than 4 left-over bits) "
+    "is decided by the reference alone and re-checked per text (a text without that shape makes the run inconclusive); the oracle "
+    "is the statement's clause only: refusing (None, an exception, any non-Contract result) is always fine, and an accepted text "
+    "is a violation only when address.for_script of the script it was read as is another string (letter case free)",
     "which object a text parser, a derivation or override_network returns is C18's / C09's subject: a history is only run when "
     "the object obtained has the expected public pair; constructors called with valid arguments must work",
 ]
 EXPLANATION = ("round trip, independent expected text, key address, acceptance-implies-canonical, cross-network acceptance and "
-               "classification fidelity are each decided by comparison with the reference model; nothing is inferred from pycoin's own output alone")
+               "classification fidelity are each decided by comparison with the reference model; nothing is inferred from pycoin's own output alone, "
+               "except the many-texts-for-one-script test on reference-built non-canonical segwit texts (fill bits / surplus symbols), which "
+               "compares the accepted text with the network's own re-encoding of the script it was read as, as the statement words it")
 TIMEOUT = {"quick": 900, "thorough": 3 * 3600}
 
 N = KT.N
@@ -116,6 +128,21 @@ def selftest(rec):
     assert KT.pubpoint(SE_X_SHORT)[0] < 1 << 248 <= KT.pubpoint(SE_X_SHORT)[1]
     assert KT.pubpoint(SE_Y_SHORT)[1] < 1 << 248 <= KT.pubpoint(SE_Y_SHORT)[0]
     assert len(KT.sec_of(KT.pubpoint(SE_X_SHORT), True)) == 33 and len(KT.sec_of(KT.pubpoint(SE_Y_SHORT), False)) == 65
+    # fill bits of the 5-to-8 regrouping: zero fill is the only reading back of to5; the BIP173 / BIP350 'non-zero padding' and
+    # 'more than 4 padding bits' examples have a valid checksum and no byte string behind their data part
+    for L in range(0, 9):
+        for x in (bytes(L), b"\xff" * L, bytes(range(1, L + 1))):
+            five = R32.to5(x)
+            p = (-8 * L) % 5
+            assert R32.from5(five) == x and len(five) * 5 - 8 * L == p
+            for pat in range(1, 1 << p):
+                assert R32.from5(five[:-1] + [five[-1] | pat]) is None
+            assert (R32.from5(five + [0]) is None) == ((5 * (len(five) + 1)) % 8 > 4)
+    for t in ("tb1qrp33g0q5c5txsp9arysrx4k6zdkfs4nce4xj0gdcccefvpysxf3pjxtptv", "bc1zw508d6qejxtdg4y5r3zarvaryvqyzf3du",
+              "tb1p0xlxvlhemja6c4dqv22uapctqupfhlxm9h8z3k2e72q4k9hcz7vpggkg4j", "bc1p0xlxvlhemja6c4dqv22uapctqupfhlxm9h8z3k2e72q4k9hcz7v07qwwzcrf"):
+        raw = R32.raw_decode(t)
+        assert raw is not None and R32.from5(raw[1][1:]) is None, t
+    out["regroup_fill_bits"] = "exhaustive L<=8, 4 published non-zero-padding examples"
     return out
 
 
@@ -1016,6 +1043,116 @@ def accept_workload(P, rng, scale):
     return out
 
 
+# ---------------------------------------------------------------------------------------------
+# (iv-b) checksummed segwit texts whose 5-bit data part is not the regrouping of any byte string
+#
+# An address text is the 8-to-5 regrouping of the program with ZERO fill bits; every other value of the fill bits, and every
+# surplus symbol, gives a different string with a valid checksum that no network writes for any script. The statement
+# allows a network to accept a string only if it is the re-encoding of the script it denotes, so such a string is either
+# refused, or what address.for_script gives back for the denoted script is that very string (letter case free).
+
+REGROUP_ENTRIES = ("address", "payable", "call", "for_address", "p2pkh_segwit", "p2sh_segwit", "p2tr")
+REGROUP_SUBS = ("nonzero_padding", "surplus_symbols")
+
+
+def regroup_workload(P, rng, scale):
+    """-> [(text, sub, tags)] for the network's own HRP; sub in REGROUP_SUBS; tags = counters describing the witness shape."""
+    out = []
+    hrp = P.hrp
+    if hrp is None:
+        return out
+    std = ((0, 20), (0, 32), (1, 32))
+    nrand = 2 if scale <= 1 else 4 if scale <= 4 else 24
+    for ver, L in std:
+        own = "bech32" if ver == 0 else "bech32m"
+        progs = [bytes(L), b"\xff" * L, bytes(L - 1) + b"\x01", b"\xff" * (L - 1) + b"\xfe"] + [rbytes(rng, L) for _ in range(nrand)]
+        p = (-8 * L) % 5
+        for pi, prog in enumerate(progs):
+            five = R32.to5(prog)
+            # every non-zero value of the p fill bits of the last symbol (none when 8L is a multiple of 5)
+            for pat in range(1, 1 << p):
+                tags = ["pad_width_%d" % p, "pad_low_bit_clear" if pat & 1 == 0 else "pad_low_bit_set",
+                        "pad_high_bit_only" if pat == 1 << (p - 1) else "pad_single_bit" if pat & (pat - 1) == 0 else "pad_several_bits"]
+                d = [ver] + five[:-1] + [five[-1] | pat]
+                t = R32.raw_encode(hrp, d, own)
+                out.append((t, "nonzero_padding", tags + ["own_checksum"]))
+                if pi < 2 or pat in (2, 8):
+                    out.append((t.upper(), "nonzero_padding", tags + ["upper_case"]))
+                if pi < 3:
+                    out.append((R32.raw_encode(hrp, d, "bech32m" if own == "bech32" else "bech32"), "nonzero_padding", tags + ["other_checksum"]))
+            if p:
+                out.append((None, "all_pad_patterns", []))
+            # surplus symbols after the complete program: left-over bits that are no fill of a last byte
+            extras = [[x] for x in range(32)] if p == 0 else [[x] for x in range(1, 32, 2)] + [[0, 0], [0, 1], [0, 16], [31, 31], [rng.randrange(32), rng.randrange(32)]]
+            if pi >= 3:
+                extras = rng.sample(extras, 4)
+            for ex in extras:
+                t = R32.raw_encode(hrp, [ver] + five + ex, own)
+                out.append((t, "surplus_symbols", ["surplus_%d" % len(ex), "surplus_zero" if not any(ex) else "surplus_nonzero"]))
+    # the same on program lengths / versions that are no standard kind (a network need not accept their canonical form at all)
+    for ver in (0, 1, 2, 16):
+        for L in (2, 3, 4, 21, 31, 33, 38, 39):
+            p = (-8 * L) % 5
+            if p == 0:
+                continue
+            five = R32.to5(rbytes(rng, L))
+            for pat in sorted({1, 1 << (p - 1), (1 << p) - 1, rng.randrange(1, 1 << p)}):
+                t = R32.raw_encode(hrp, [ver] + five[:-1] + [five[-1] | pat], "bech32" if ver == 0 else "bech32m")
+                out.append((t, "nonzero_padding", ["pad_width_%d" % p, "not_a_standard_program"]))
+    return out
+
+
+def regroup_shape_ok(P, text):
+    """the generator's promise, decided by the reference alone: checksum valid, HRP of the network, data part no regrouping of bytes."""
+    raw = R32.raw_decode(text)
+    return raw is not None and raw[0] == P.hrp.lower() and len(raw[1]) > 1 and R32.from5(raw[1][1:]) is None and R32.segwit_decode(P.hrp, text) is None
+
+
+def check_regroup(sym, net, P, text, sub, rec, tags=()):
+    case = {"op": "regroup", "net": sym, "text": "t:" + text, "sub": sub}
+    if sub not in REGROUP_SUBS or P.hrp is None or not regroup_shape_ok(P, text):
+        rec.ev("inconclusive:regroup_generator_shape")
+        rec.note("regroup text %r on %s has not the promised shape" % (text, sym))
+        return
+    rec.case(("regroup", sym, text))
+    rec.ev("regroup.offered." + sub)
+    for tg in tags:
+        rec.ev("regroup.offered." + tg)
+    accepted = False
+    for entry in REGROUP_ENTRIES:
+        rec.ev("regroup.entry." + entry)
+        st, o = observe(ENTRY[entry], net, text)
+        if st != "ok":
+            rec.ev("regroup.refused_by_exception")
+            continue
+        if isinstance(o, bytes) and entry == "for_address":
+            st, sc = "ok", o
+        elif is_contract(o):
+            st, sc = observe(o.script)
+        else:
+            rec.ev("regroup.refused" if o is None else "regroup.no_contract_result")      # any other result counts as rejection
+            continue
+        if st != "ok" or not isinstance(sc, bytes):
+            rec.ev("regroup.accepted_contract_without_script")       # check_accept's subject
+            continue
+        accepted = True
+        rec.ev("address.for_script")
+        st, t2 = observe(net.address.for_script, sc)
+        if st == "ok" and isinstance(t2, str) and t2.lower() == text.lower():
+            rec.ev("regroup.accepted_and_reencodes_to_itself")
+            continue
+        rec.violation("address.accepts_noncanonical_regrouping." + sub, dict(case, entry=entry, script=sc), t2 if st == "ok" else repr(t2), text.lower())
+        return
+    rec.ev("regroup.accepted" if accepted else "regroup.rejected")
+
+
+REGROUP_REQUIRED = (["regroup.offered." + s for s in REGROUP_SUBS] + ["regroup.entry." + e for e in REGROUP_ENTRIES] +
+                    ["regroup.offered." + t for t in ("pad_width_4", "pad_low_bit_clear", "pad_low_bit_set", "pad_high_bit_only", "pad_single_bit",
+                                                      "pad_several_bits", "own_checksum", "other_checksum", "upper_case", "not_a_standard_program",
+                                                      "surplus_1", "surplus_2", "surplus_zero", "surplus_nonzero")] +
+                    ["regroup.all_pad_patterns", "regroup.rejected"])
+
+
 def run_nets(spec, rec, good):
     mine = good[spec["slice"]::spec["of"]]
     scale = spec.get("scale", 1)
@@ -1046,6 +1183,11 @@ def run_nets(spec, rec, good):
             check_key(sym, net, P, se, rec)
         for text in accept_workload(P, rng, scale):
             check_accept(sym, net, P, text, rec)
+        for text, sub, tags in regroup_workload(P, rng, scale):
+            if text is None:
+                rec.ev("regroup." + sub)
+            else:
+                check_regroup(sym, net, P, text, sub, rec, tags)
         # queries issued after the failed / rejected calls above
         for kind in KINDS:
             check_kind(sym, net, P, kind, rbytes(rng, HLEN[kind]), rec)
@@ -1498,6 +1640,7 @@ def run_shard(spec, rec):
                     "contract.script", "contract.address", "contract.for_address", "contract.for_p2s", "bip32.address", "electrum.address",
                     "key.hash160", "key.coordinate_with_leading_zero_byte", "published_prefixes", "published_vector", "accept.accepted.b58_address", "accept.accepted.segwit_standard")
         rec.require(*["accept.offered." + c for c in TEXT_CLASSES])
+        rec.require(*REGROUP_REQUIRED)
         # every listed kind went the whole way script -> text -> script on some network (BTC declares all five)
         rec.require(*["roundtrip." + k for k in KINDS])
         if any(sym == "LTC" for sym, _ in good[spec["slice"]::spec["of"]]):
@@ -1530,6 +1673,8 @@ def replay_case(case, rec):
         run_key_history(sym, net, P, int(case["se"]), case["source"], case["steps"].split(), rec, case.get("other"), other)
     elif op == "accept":
         check_accept(sym, net, P, _text(case["text"]), rec)
+    elif op == "regroup":
+        check_regroup(sym, net, P, _text(case["text"]), case["sub"], rec)
     elif op == "override":
         a = network_for_netcode(case["from"])
         check_override(case["from"], a, sym, net, P, case["kind"], case["h"], _text(case["text"]), rec)
